@@ -47,8 +47,8 @@ const char *kx_name(int kx)
 void cfg_desc(const wcfg_t *c, char *out, size_t n)
 {
     snprintf(out, n, "%s%s%s/%s/%04x%s%s%s%s", ver_name(c->ver), c->cver ? "+c" : "", c->cver ? ver_name(c->cver) : "",
-        kx_name(c->kx), c->suite, c->client_auth ? "/cauth" : "", c->early_data ? "/early" : "",
-        c->tickets ? "/tick" : "", c->bad_server_cert ? "/badcert" : "");
+        kx_name(c->kx), c->suite, c->client_auth ? "/cauth" : "", c->early_data == 2 ? (c->early_send ? "/early-off-at-server+0rtt" : "/early-off-at-server") : c->early_data ? (c->early_send ? "/early+0rtt" : "/early") : "",
+        c->resume13 ? "/tick+resumed" : c->tickets ? "/tick" : "", c->bad_server_cert ? "/badcert" : "");
 }
 
 static uint16_t default_suite(int ver, int kx)
@@ -266,7 +266,7 @@ int world_new_sessions(world_t *w)
     {
         co.extendedMasterSecret = -1;
     }
-    if (c->early_data)
+    if (c->early_data == 1)
     {
         so.tls13SessionMaxEarlyData = 16384;
     }
@@ -288,6 +288,17 @@ int world_new_sessions(world_t *w)
     if (rc < 0)
     {
         return rc;
+    }
+    if (c->early_send && matrixSslGetMaxEarlyData(w->s[0].ssl) > 0)
+    {
+        /* honest 0-RTT: one early-data record behind the ClientHello */
+        static const unsigned char early[] = "0-RTT early application data";
+        rc = matrixSslEncodeToOutdata(w->s[0].ssl, (unsigned char *) early, (uint32) sizeof(early) - 1);
+        world_tracef(w, "0:encode-early %d -> %d\n", (int) sizeof(early) - 1, rc);
+        if (rc > 0)
+        {
+            buf_add(&w->s[0].submitted, early, sizeof(early) - 1);
+        }
     }
     return 0;
 }
@@ -313,6 +324,29 @@ int world_init(world_t *w, const wcfg_t *cfg)
     if (matrixSslNewSessionId(&w->sid, NULL) < 0)
     {
         return -1;
+    }
+    if (cfg->resume13)
+    {
+        /* prelude: a first, complete connection whose server session offers early data; its ticket is kept in w->sid */
+        wcfg_t real = w->cfg;
+        w->cfg.early_data = real.early_data ? 1 : 0;
+        w->cfg.early_send = 0;
+        if ((rc = world_new_sessions(w)) < 0)
+        {
+            return rc;
+        }
+        world_pump(w, 200);
+        if (!(world_is_complete(w, 0) && world_is_complete(w, 1)))
+        {
+            return -1;
+        }
+        world_app_send(w, 1, (const unsigned char *) "prelude", 7);
+        world_pump(w, 50);
+        world_free_sessions(w);
+        world_wire_clear(w, 0);
+        world_wire_clear(w, 1);
+        buf_clear(&w->trace);
+        w->cfg = real;
     }
     return world_new_sessions(w);
 }
